@@ -1,7 +1,7 @@
 #!/usr/bin/env bash
 # Run every claimed check's thorough tier once (background exploration; evidence not kept).
 cd "$(dirname "$0")/.."
-for c in C02 C06 C03 C10 C04 C09 C13 C14 C15 C07 C08 C11 C12 C01 C05 C20; do
+for c in ${THOROUGH_ORDER:-C03 C10 C09 C05 C12 C01 C13 C08 C02 C06 C04 C14 C15 C11 C20 C07}; do
   echo "=== $c thorough $(date +%T)"
   ./check $c thorough --no-evidence 2>&1 | grep -E "^C[0-9]+:|VIOLATION|HARNESS|class=|WARN|KNOWN" | cut -c1-400
 done
